@@ -12,7 +12,8 @@ PROP = dict(
             dict(name="lend-close-witness", go_test="TestC08Close", runner="C08"),
         ],
         rule="case = one history of 20-50 messages (lend / deposit / withdraw / close-lend / borrow / borrow-alternate / deposit-borrow / draw / "
-             "repay / close-borrow / repay-withdraw / fund-module-accounts / fund-reserve-accounts / calculate-interest-and-rewards, hand-overs of positions to the liquidation auction through "
+             "repay / close-borrow / repay-withdraw / fund-module-accounts / fund-reserve-accounts / calculate-interest-and-rewards, esm kill-switch toggles (about 1 message in 6 runs under an active switch), "
+             "a pool-depreciation proposal in the second half of some histories, hand-overs of positions to the liquidation auction through "
              "liquidationsV2 MsgLiquidateInternalKeeper, two thirds of them after a crash of the collateral price, and market bids (auctionsV2 MsgPlaceMarketBid by a bidder outside the projection: "
              "closing, exact, partial, one coin, dust-leaving; half of them after the real auctionsV2 BeginBlocker) on the generation-2 auctions of the handed-over positions, the closing bid "
              "running liquidationsV2 MsgCloseDutchAuctionForBorrow on the real lend keeper) by 3 users over 2 pools x 3 assets with 12 same-pool and 5 cross-pool pairs "
@@ -46,7 +47,12 @@ PROP = dict(
                   "called only by the generation-1 x/liquidation UnLiquidateLockedBorrows (reached through x/auction MsgPlaceDutchLendBid)",
                   "not modelled, never issued by the generator: the generation-1 modules (x/liquidation MsgLiquidateBorrow - still routed - and its sell-off arithmetic, x/auction lend "
                   "auctions and bids, CreteNewBorrow, RemoveFaultyAuctions' loop body), DeletePoolAndTransferInterest (block hook at heights divisible by 14400, deletes pool records: "
-                  "pools are constant configuration in the model; the harness skips those heights), ESM kill switch, pool depreciation, limit bids / the automatic fill (C11)",
+                  "pools are constant configuration in the model; the harness skips those heights), limit bids / the automatic fill (C11)",
+                  "the ESM kill switch of an app (esm MsgKillSwitch by an admin or - refused - by somebody else, for the lend app, another app, a missing app) and the depreciation of "
+                  "a pool (lend HandlePoolDepreciateProposal, run all-or-nothing like a passed governance proposal) are state in the model; every handler's early return on them "
+                  "(LendAsset, DepositAsset, WithdrawAsset, CloseLend, BorrowAsset, DepositBorrowAsset, DrawAsset, RepayAsset, CloseBorrow, BorrowAlternate, MsgCalculateBorrowInterest, "
+                  "MsgCalculateLendRewards, liquidationsV2 LiquidateIndividualBorrow) is modelled at its place in the handler, so that a dropped or misplaced check shows as a "
+                  "result-class or projection mismatch",
                   "reserve buy-back / AllReserveStats / FundModBal records are not projected",
                   "sort.Search (binary) modelled as first index with ids[i] >= id; equal on ascending lists, and the id lists are proved ascending (= filter of 1..n)",
                   "the pool-holds-the-loan predicate is evaluated on the message's pre-state for Draw and for a Borrow that opens a position; for DepositDraw "
@@ -71,6 +77,7 @@ MANIFEST = dict(
                "known-finding class kf_C08_3 and refuted inside it with two witnesses replayed on the real keepers (accrued interest is booked and its reserve share forwarded although the "
                "target debt carries none: pool 999 999 848 vs total lent 1 000 000 000 with nothing lent out, the lender's CloseLend refused; e-mode penalty 8 % forwarded where 5 % was "
                "collected: pool 30 000 short); a cross-pool position whose lend record the hand-over deleted can never be closed (c08_close_stuck, finding C10-F7); "
+               "with the ESM kill switch on no lend message, RepayWithdraw or hand-over changes the state, a depreciated pool takes no new funds or debt (c08_kill_switch_freezes, c08_depreciated_pool_closed); "
                "loan-to-value decision rule of Borrow / Draw / BorrowAlternate with the explicit one-ulp Quo slack (and the bridged-coin bound for new "
                "cross-pool positions), pool-holds-the-loan and pledged-collateral safety of Withdraw / CloseLend proved per message from any invariant "
                "state, hence after every history. Finding C08-F1 (BorrowAsset accepted a lend position of another asset than the pair's asset in and priced "
@@ -80,7 +87,7 @@ MANIFEST = dict(
     design_ref="DESIGN.md section 4 C08",
     level_note="Trusted: Coq kernel, extraction (ExtrOcamlBasic), OCaml runner, Go harness. Interest arithmetic is an environment input (C18). "
                "The liquidation decision is an environment input (C09); auction internals (bid acceptance, target debt, returned collateral) are environment inputs (C10); "
-               "the generation-1 liquidation / auction modules, ESM kill switch, pool depreciation and the pool-deletion block hook are not modelled (listed in the evidence). "
+               "the generation-1 liquidation / auction modules and the pool-deletion block hook are not modelled (listed in the evidence). "
                "No axioms (Closed under the global context).",
     technique="Coq proof (inductive invariants over message histories, decision rules with explicit Dec rounding) + model/implementation correspondence run",
 )
